@@ -27,6 +27,7 @@ func init() {
 	register(&Rule{ID: "C07.R8", Prop: "C07", Floor: 6,
 		Doc: "unconfirmed candidates exclude outputs spent by later pooled transactions (every pool loop deletes spent ids from the element map)",
 		Run: c07r8})
+	register(&Rule{ID: "C07.R10", Prop: "C07", Floor: 1, Doc: "every read of a reservation entry compares its expiry with the current time (a bare membership test makes expired reservations permanent)", Run: c07r10})
 	register(&Rule{ID: "C07.R9", Prop: "C07", Floor: 2, Doc: "ids of outputs created by pooled transactions are derived with positions of the output list (same check as C13.R10, package wallet)", Run: func(c *Ctx) { derivedIDDomains(c, "wallet") }})
 	register(&Rule{ID: "C07.R6", Prop: "C07", Floor: 3,
 		Doc: "selection and reservation happen in one critical section (no unlock between them)",
@@ -1029,5 +1030,112 @@ func c07r8(c *Ctx) {
 	}
 	if n == 0 {
 		ir.Fail("no lock-holding pool loop collecting unconfirmed outputs found")
+	}
+}
+
+// c07r10: a reservation ends when its period is over. The reservation map holds an expiry time per output id; every
+// *read* of an entry compares that time with the current time (time.Now().Before(entry), entry.After(time.Now()),
+// …). A bare membership test turns an expired reservation — which is pruned only by a later successful selection or
+// an explicit release — into a permanent one: the output vanishes from balance, listing and selection.
+func c07r10(c *Ctx) {
+	locked := walletLockedField(c.P)
+	n := 0
+	for _, f := range c.P.PkgFuncs("wallet") {
+		if !f.MentionsField(f.Body, true, locked) {
+			continue
+		}
+		all := append([]*ir.Func{f}, f.Lits...)
+		for _, fn := range all {
+			parents := map[ast.Node]ast.Node{}
+			var stack []ast.Node
+			ast.Inspect(fn.Body, func(x ast.Node) bool {
+				if x == nil {
+					stack = stack[:len(stack)-1]
+					return true
+				}
+				if len(stack) > 0 {
+					parents[x] = stack[len(stack)-1]
+				}
+				stack = append(stack, x)
+				return true
+			})
+			ast.Inspect(fn.Body, func(x ast.Node) bool {
+				if lit, isLit := x.(*ast.FuncLit); isLit && lit.Body != fn.Body {
+					return false
+				}
+				ix, ok := x.(*ast.IndexExpr)
+				if !ok || fn.FieldOf(ix.X) != locked {
+					return true
+				}
+				// writes: `locked[id] = t`, and delete(locked, id) is a call, not an index
+				if as, isAs := parents[ix].(*ast.AssignStmt); isAs {
+					for _, l := range as.Lhs {
+						if l == ast.Expr(ix) {
+							return true
+						}
+					}
+				}
+				n++
+				c.VisitGraph(fn)
+				ob := c.Ob(fn, "reservation-read-compares-expiry", ix.Pos())
+				// the entry is an operand (receiver or argument) of a method of time.Time together with time.Now()
+				good := false
+				for p := parents[ix]; p != nil; p = parents[p] {
+					call, isCall := p.(*ast.CallExpr)
+					if !isCall {
+						if _, isParen := p.(*ast.ParenExpr); isParen {
+							continue
+						}
+						if _, isSel := p.(*ast.SelectorExpr); isSel {
+							continue
+						}
+						break
+					}
+					callee := fn.Callee(call)
+					if callee == nil || callee.Pkg() == nil || callee.Pkg().Path() != "time" {
+						break
+					}
+					usesNow := false
+					ast.Inspect(call, func(y ast.Node) bool {
+						if c2, ok := y.(*ast.CallExpr); ok {
+							if fn2 := fn.Callee(c2); fn2 != nil && fn2.Pkg() != nil && fn2.Pkg().Path() == "time" && fn2.Name() == "Now" {
+								usesNow = true
+							}
+						}
+						return true
+					})
+					if usesNow {
+						good = true
+					}
+					break
+				}
+				if !good {
+					// a value bound to a local first: `exp, ok := locked[id]` with exp compared with the clock later
+					if as, isAs := parents[ix].(*ast.AssignStmt); isAs && len(as.Lhs) >= 1 {
+						if o := fn.ObjOf(as.Lhs[0]); o != nil && o.Name() != "_" {
+							ast.Inspect(fn.Body, func(y ast.Node) bool {
+								c2, ok := y.(*ast.CallExpr)
+								if !ok {
+									return true
+								}
+								callee := fn.Callee(c2)
+								if callee == nil || callee.Pkg() == nil || callee.Pkg().Path() != "time" {
+									return true
+								}
+								if fn.MentionsObj(c2, false, o) {
+									good = true
+								}
+								return true
+							})
+						}
+					}
+				}
+				ob.Check(good, nil, "the reservation entry read at %s is not compared with the current time: an expired reservation keeps its output out of balance, listing and selection until something else prunes it", c.P.Pos(ix.Pos()))
+				return true
+			})
+		}
+	}
+	if n == 0 {
+		ir.Fail("no read of the wallet's reservation map found")
 	}
 }
